@@ -128,6 +128,15 @@ def check(inp):
             own = own + stats.norm.logpdf(K, 0.0, sig)
             tag = "[generate_linear,default-K]"
     resid = lp - own
+    if not inp["generate_linear"]:
+        # another prior (another period domain) scored in the same process afterwards: its ln_prior is ITS density, not the previous prior's
+        from thejoker import JokerPrior
+        other = JokerPrior.default(P_min=300 * u.day, P_max=5000 * u.day, sigma_K0=25 * u.km / u.s, sigma_v=50 * u.km / u.s)
+        s2 = other.sample(size=12, rng=np.random.default_rng(inp["seed"] + 1), return_logprobs=True)
+        lp2 = np.asarray(s2["ln_prior"])
+        own2 = -np.log(s2["P"].to_value(u.day)) + stats.beta.logpdf(np.asarray(s2["e"]), 0.867, 3.03)
+        if not np.all(np.isfinite(lp2)) or np.ptp(lp2 - own2) > 1e-3 * max(1.0, np.abs(lp2).max()):
+            bad("JokerPrior.sample", "ln_prior-is-this-priors-own-density-whatever-was-sampled-before[call-history]", spread=float(np.ptp(lp2 - own2)) if np.all(np.isfinite(lp2)) else "not finite")
     if np.ptp(resid) > 1e-3 * max(1.0, np.abs(lp).max()):
         bad("JokerPrior.sample", "ln_prior-is-the-sum-of-own-row-log-densities-up-to-a-constant" + tag, spread=float(np.ptp(resid)))
     return fails
